@@ -540,10 +540,60 @@ def symbols_of(e: Ex, acc=None):
     return acc
 
 
+def realify(e: Ex, memo=None) -> Ex:
+    """The term under the assumption that every symbol is real: conj(s)=s, real(x)=x, imag(x)=0."""
+    if memo is None:
+        memo = {}
+
+    def rec(x):
+        r = memo.get(x)
+        if r is not None:
+            return r
+        if x.op == "cs":
+            r = Ex("s", x.args[0])
+        elif x.op in ("c", "s"):
+            r = x
+        elif x.op == "I":
+            r = x
+        elif x.op == "f" and x.args[0] in ("real", "conj_of"):
+            r = rec(x.args[1])
+        elif x.op == "f" and x.args[0] == "imag":
+            r = ZERO
+        elif x.op == "+":
+            r = add(rec(x.args[0]), rec(x.args[1]))
+        elif x.op == "*":
+            r = mul(rec(x.args[0]), rec(x.args[1]))
+        elif x.op == "/":
+            r = div(rec(x.args[0]), rec(x.args[1]))
+        else:
+            r = Ex(x.op, *[rec(a) if isinstance(a, Ex) else a for a in x.args])
+        memo[x] = r
+        return r
+
+    return rec(e)
+
+
+def _has_I(e):
+    seen, todo = set(), [e]
+    while todo:
+        x = todo.pop()
+        if x in seen:
+            continue
+        seen.add(x)
+        if x.op == "I":
+            return True
+        todo.extend(a for a in x.args if isinstance(a, Ex))
+    return False
+
+
 def equal(a: Ex, b: Ex, rng=None, points=12, real_only=False, tol=1e-8):
     """Decide a == b.  Returns (True, 'exact'|'random', None) or (False, how, witness)."""
     if a is b:
         return True, "identical", None
+    if real_only and not _has_I(a) and not _has_I(b):
+        a, b = realify(a), realify(b)
+        if a is b:
+            return True, "identical", None
     try:
         atoms = {}
         n1, d1 = to_rat(a, atoms)
